@@ -192,7 +192,7 @@ def run_empty_priv(case) -> Result:
 
     async def sender(endpoint, data, timeout=None, retries=None, loop=None):
         seen.append(bytes(data))
-        return agent.handle(bytes(data))
+        return agent.handle_or_timeout(bytes(data))
 
     creds = V3(s["user"], Auth(bytes.fromhex(s["auth_pw"]), s["algo"]), Priv(b"", s["priv"]))
     client = vworld.Client("192.0.2.1", creds, sender=sender)
